@@ -264,15 +264,26 @@ func ruleR182(c *Ctx) {
 		esc := LookupMethod(xa.wp, "XMLWriter", "writeEsc")
 		valueParam := paramKeyOf(winfo, fd, 1)
 		ok := false
+		ctxWrong := false
 		ast.Inspect(fd.Body, func(x ast.Node) bool {
-			if call, isCall := x.(*ast.CallExpr); isCall && esc != nil && isCallTo(winfo, call, esc) && len(call.Args) == 1 {
+			if call, isCall := x.(*ast.CallExpr); isCall && esc != nil && isCallTo(winfo, call, esc) && len(call.Args) >= 1 {
 				if k, _ := exprKey(winfo, call.Args[0]); k == valueParam {
 					ok = true
+					// an escaper with a context flag: Attr has to announce the attribute context
+					if len(call.Args) == 2 {
+						if tv := winfo.Types[call.Args[1]]; tv.Value == nil || tv.Value.Kind() != constant.Bool || !constant.BoolVal(tv.Value) {
+							ctxWrong = true
+						}
+					}
 				}
 			}
 			return true
 		})
-		c.Check(ok, key, fd.Pos(), "attribute values are written through the escaper", "Attr does not write its value through the escaper: a quote in a string of the value ends the attribute")
+		if ok && ctxWrong {
+			c.Violation(key, fd.Pos(), "Attr calls the escaper without announcing the attribute context: tabs and line breaks in the value are written as they are and read back as blanks")
+		} else {
+			c.Check(ok, key, fd.Pos(), "attribute values are written through the escaper (in attribute context)", "Attr does not write its value through the escaper: a quote in a string of the value ends the attribute")
+		}
 	}
 	if fd := c.FuncDecl(xa.wp, "XMLWriter", "Write"); fd != nil {
 		esc := LookupMethod(xa.wp, "XMLWriter", "writeEsc")
@@ -300,42 +311,92 @@ func ruleR183(c *Ctx) {
 		return
 	}
 	want := map[rune][]string{'<': {"&lt;", "&#60;", "&#x3c;", "&#x3C;"}, '>': {"&gt;", "&#62;", "&#x3e;", "&#x3E;"}, '&': {"&amp;", "&#38;", "&#x26;"}, '\'': {"&apos;", "&#39;", "&#x27;"}, '"': {"&quot;", "&#34;", "&#x22;"}}
+	// characters a parser does not hand back as written: CR everywhere (line end normalisation), TAB and LF in
+	// attribute values (attribute value normalisation) - they have to be character references
+	refs := map[rune][]string{'\r': {"&#xD;", "&#xd;", "&#13;"}, '\n': {"&#xA;", "&#xa;", "&#10;"}, '\t': {"&#x9;", "&#9;"}}
+	// contexts: the boolean parameter of the escaper (attribute or character data), if it has one
+	info := xa.wp.TypesInfo
+	var flag types.Object
+	for _, f := range fd.Type.Params.List {
+		for _, nm := range f.Names {
+			if bt, ok := info.TypeOf(nm).Underlying().(*types.Basic); ok && bt.Kind() == types.Bool {
+				flag = info.Defs[nm]
+			}
+		}
+	}
+	type ctxT struct {
+		name  string
+		bools map[types.Object]bool
+		attr  bool
+	}
+	contexts := []ctxT{{"attribute values and character data", nil, true}}
+	if flag != nil {
+		contexts = []ctxT{{"attribute values", map[types.Object]bool{flag: true}, true}, {"character data", map[types.Object]bool{flag: false}, false}}
+	}
 	var problems []string
 	n := 0
-	for _, r := range []rune{'<', '>', '&', '\'', '"', 'a', ' ', '=', ']', 0xe4, 0x2028, 0x1f600} {
-		sinks, ok := c.escaperSinks(xa.wp, fd, r)
-		if !ok {
-			c.Undecided(key, fd.Pos(), "loop over the runes not found")
-			return
-		}
-		n++
-		if len(sinks) == 0 {
-			problems = append(problems, fmt.Sprintf("%q is dropped", r))
-		}
-		for _, s := range sinks {
-			if ents, special := want[r]; special {
-				okEnt := false
-				if s.kind == "const" {
-					for _, e := range ents {
-						if s.text == e {
-							okEnt = true
+	for _, cx := range contexts {
+		for _, r := range []rune{'<', '>', '&', '\'', '"', '\t', '\n', '\r', 'a', ' ', '=', ']', 0xe4, 0x2028, 0x1f600} {
+			sinks, ok := c.escaperSinksCtx(xa.wp, fd, r, cx.bools)
+			if !ok {
+				c.Undecided(key, fd.Pos(), "loop over the runes not found")
+				return
+			}
+			n++
+			if len(sinks) == 0 {
+				problems = append(problems, fmt.Sprintf("%q is dropped", r))
+			}
+			ents, special := want[r]
+			if rf, isRef := refs[r]; isRef {
+				if r == '\r' || cx.attr {
+					ents, special = rf, true
+				} else {
+					// TAB and LF in character data: as written or as a reference
+					ents, special = nil, false
+					for _, s := range sinks {
+						if s.kind == "const" {
+							for _, e := range rf {
+								if s.text == e {
+									s.kind = "raw"
+								}
+							}
 						}
 					}
 				}
-				if !okEnt {
-					if s.kind == "raw" {
-						problems = append(problems, fmt.Sprintf("%q can be written raw (%s)", r, c.posStr(s.pos)))
-					} else {
-						problems = append(problems, fmt.Sprintf("%q is written as %q", r, s.text))
+			}
+			for _, s := range sinks {
+				if special {
+					okEnt := false
+					if s.kind == "const" {
+						for _, e := range ents {
+							if s.text == e {
+								okEnt = true
+							}
+						}
+					}
+					if !okEnt {
+						if s.kind == "raw" {
+							problems = append(problems, fmt.Sprintf("in %s %q can be written raw (%s)", cx.name, r, c.posStr(s.pos)))
+						} else {
+							problems = append(problems, fmt.Sprintf("in %s %q is written as %q", cx.name, r, s.text))
+						}
+					}
+				} else if s.kind != "raw" && !(s.kind == "const" && s.text == string(r)) {
+					isRef := false
+					for _, e := range refs[r] {
+						if s.text == e {
+							isRef = true
+						}
+					}
+					if !isRef {
+						problems = append(problems, fmt.Sprintf("the ordinary character %q is written as %q", r, s.text))
 					}
 				}
-			} else if s.kind != "raw" && !(s.kind == "const" && s.text == string(r)) {
-				problems = append(problems, fmt.Sprintf("the ordinary character %q is written as %q", r, s.text))
 			}
 		}
 	}
 	sort.Strings(problems)
-	c.Check(len(problems) == 0, key, fd.Pos(), fmt.Sprintf("abstract evaluation for %d code points: < > & ' \" always become their entities, other characters are written unchanged", n), "the XML escaper lets markup characters through or distorts text: "+strings.Join(problems, "; "))
+	c.Check(len(problems) == 0, key, fd.Pos(), fmt.Sprintf("abstract evaluation for %d (context, code point) pairs: < > & ' \" always become their entities, CR (and TAB, LF in attribute values) character references, other characters are written unchanged", n), "the XML escaper lets markup characters through or writes characters a parser does not hand back: "+strings.Join(problems, "; "))
 }
 
 // ---------------------------------------------------------------------------
